@@ -26,9 +26,17 @@ def message_shapes(facts):
     srv = facts.adt(SERVER)
     msg = None
     for fl in srv["variants"][0]["fields"]:
-        mm = re.search(re.escape(m.adt) + r"<([\w:]+)>", fl["ty"])
-        if mm:
-            msg = mm.group(1)
+        i = fl["ty"].find(m.adt + "<")
+        if i >= 0:
+            j = i + len(m.adt) + 1
+            depth, k = 1, j
+            while k < len(fl["ty"]) and depth:
+                depth += {"<": 1, ">": -1}.get(fl["ty"][k], 0)
+                k += 1
+            msg = fl["ty"][j:k - 1]
+    if msg is not None and re.match(r"^std::result::Result<%s, std::io::Error>$" % re.escape(REQ), msg):
+        # the queue carries io::Result<Request> itself
+        return msg, {"request": ("agg", RESULT, "Ok", {"0": RQ}), "error": ("agg", RESULT, "Err", {"0": ERR})}
     if msg is None or msg not in facts.adts:
         raise CheckerError("server rules: the Server holds no queue of a local message type")
     shapes = {}
